@@ -40,10 +40,11 @@ def c03(c):
         "are open / close / close-returned / operation logs like any connection's",
         "the engine's descriptor table is shared by all connections; the model is about ONE connection, so the interplay of two connections "
         "through a reused descriptor number (scenario fd-reused-after-close-in-onopen) is checked by the oracle only",
-        "NOT guaranteed by the code and stated as theorems about the model: a dial whose registration fails reports the failure through the "
-        "callback AND DialAsync's return value (c03_rejected_dial_reports_twice; oracle signature dial-rejected-callback-also-invoked); a close "
-        "that wins the flag while the poller holds a taken completion is notified before the success callback "
-        "(c03_close_can_precede_success_callback; counted, never observed on a real engine)",
+        "a dial whose registration fails is reported once, by DialAsync's return value (c03_rejected_dial_reported_once; before /repo eae881e the "
+        "callback was invoked as well: finding D35, oracle signature dial-rejected-callback-also-invoked stays armed)",
+        "NOT guaranteed by the code and stated as a theorem about the model: a close that wins the flag while the poller holds a taken completion "
+        "is notified before the success callback (c03_close_can_precede_success_callback; counted by the harness, not flagged: dialed connections "
+        "have no open notification; never observed on a real engine)",
     ]
     args = ["-n", n(c, 3000, 100000), "-real", n(c, 1, 16)]
     c.harness("lifecycle", args, overlay=True, model=MODEL, timeout=3000)
@@ -65,14 +66,17 @@ MANIFEST = {
              "c03_at_most_once (close notifications and close(2) <= 1), c03_exactly_once_at_quiescence (+ c03_settles: quiescence is reachable), "
              "c03_open_before_close, c03_notified_was_opened, c03_first_cause (the notified error is that of the action that flipped the flag), "
              "c03_idempotent, c03_after_close / c03_after_flag (closed indication, no syscall, nothing changes), c03_dial_once, c03_dial_truthful, "
-             "c03_model_logs_are_legal / c03_model_logs_complete (the executable checker accepts every projection of a model run), and two documented "
-             "non-guarantees (c03_rejected_dial_reports_twice, c03_close_can_precede_success_callback). Every run: thousands of seeded schedules of the "
-             "real code on simulated descriptors (registration ok / epoll failure / table overflow; backlog; armed timers; 2-7 threads) compared event by "
-             "event and counter by counter with the model; ~190 real-engine connections per round (accepted / added / dialed x 13 terminations + 5 dial "
-             "outcomes x LT / ET / ONESHOT / ET+AsyncRead) checked by the oracle (exactly one OnClose after OnOpen, allowed cause, ops after Close, "
+             "c03_model_logs_are_legal / c03_model_logs_complete (the executable checker accepts every projection of a model run), "
+             "c03_rejected_dial_reported_once, and one documented non-guarantee (c03_close_can_precede_success_callback). Every run: thousands of seeded schedules of the "
+             "real code on simulated descriptors (registration ok / epoll failure / table overflow / closed by the open handler; backlog; armed timers; 2-7 threads) compared event by "
+             "event and counter by counter with the model; ~200 real-engine connections per round (accepted / added / dialed x 13 terminations + 5 dial "
+             "outcomes x LT / ET / ONESHOT / ET+AsyncRead, rejected registrations, UDP peer sessions, a reused descriptor number) checked by the oracle (exactly one OnClose after OnOpen, allowed cause, ops after Close, "
              "descriptor gone in /proc/self/fd, dial callback once and truthful by getpeername) and by the extracted checker.",
         note="Trusted: Coq kernel, extraction, OCaml driver, Go harness, overlay (scheduler, shim kernel, constructors), the mirror of the poller's "
-             "writability dispatch in the simulated tier. Not covered: UDP connection types, conn_std.go, poller_kqueue.go.",
+             "writability dispatch in the simulated tier. UDP peer sessions and the two-connection descriptor-reuse scenario are tested, not modelled. "
+             "Not covered: conn_std.go, poller_kqueue.go. Found while building this check and fixed in /repo: D35 (rejected dial reported twice, double "
+             "wgConn.Done), D36 (Close inside the open handler of a UDP session deadlocks the poller), D37 (a connection closed by its open handler "
+             "knocks another connection with the same descriptor number out of the table).",
         design="DESIGN.md section 4 C03, Appendix E"),
 }
 
